@@ -190,6 +190,17 @@ func runC14(c *Ctx) error {
 	var units []unit
 	for len(units) < n {
 		g := richGrammar(c.Rng)
+		if c.Rng.Intn(3) == 0 {
+			// tokens the syntax part uses without a lexical definition (hand-written lexer style): only a warning
+			var lex []gram.LexDef
+			for _, d := range g.Lex {
+				if d.Kind == gram.DTok && len(d.Name) == 1 && c.Rng.Intn(2) == 0 {
+					continue
+				}
+				lex = append(lex, d)
+			}
+			g.Lex = lex
+		}
 		base := g.Tokens(nil)
 		if !spec.Accepts(typesOf(base)) {
 			return fmt.Errorf("harness self-check: M-SPEC rejects a well-formed generated grammar:\n%s", g.Render(nil))
